@@ -121,13 +121,26 @@ Verdict_encode2(e) ==
                /\ (Len(big) <= e.in.cap => o.buf = big)
                /\ (Len(big) > e.in.cap => o.buf = <<ST_Other>>)
                /\ o.buf_alt = o.buf                              \* independent of previous contents
+        \* the status NUMBER the crate itself emits: Success (0x00) in front of every payload,
+        \* Other (0x7F) alone, nothing else -- whatever the buffer held before
+        statusOk(m) == /\ Len(m) >= 1 /\ m[1] \in {0, ST_Other}
+                       /\ (Len(m) > 1 => m[1] = 0)
+        c18 == statusOk(o.buf) /\ statusOk(o.buf_alt) /\ statusOk(big)
+        \* what comes out decodes to what went in (the same set of key/value pairs), whatever the
+        \* buffer held before
+        sameValue(m) == \/ m = <<ST_Other>>
+                        \/ Len(exp) = 1 /\ m = <<0>>
+                        \/ Len(exp) > 1 /\ complete(m) /\ Len(m) > 1 /\ SameItem(Body(m), Body(exp))
+        c15 == sameValue(o.buf) /\ sameValue(o.buf_alt) /\ sameValue(big)
         bind == o.buf = buf
     IN  [bind |-> bind, unspec |-> FALSE,
          violated |->
+            (IF "C18" \in ps /\ ~c18 THEN {"C18"} ELSE {}) \cup
+            (IF "C15" \in ps /\ ~c15 THEN {"C15"} ELSE {}) \cup
             (IF "C02" \in ps /\ ~c02 THEN {"C02"} ELSE {})
             \cup (IF "C03" \in ps /\ ~c03 THEN {"C03"} ELSE {})
             \cup (IF "C17" \in ps /\ ~c17 THEN {"C17"} ELSE {})
-            \cup (IF ~bind /\ big # exp THEN ps \ {"C02", "C03", "C17"} ELSE {})]
+            \cup (IF ~bind /\ big # exp THEN ps \ {"C02", "C03", "C15", "C17", "C18"} ELSE {})]
 
 (***************************************************************************)
 (* encode_type                                                             *)
